@@ -80,10 +80,24 @@ def prepLine (line : String) : String :=
       let so := { st with leaveOut := om }
       s!"twinx {" ".intercalate rest} | {hexOf (toProj4 c st)} {hexOf (toProj4 c so)} {hexOf (toWkt c st)} {hexOf (toWkt c so)}"
     | _, _ => "skip bad-twin-line"
+  | "reghist" :: hs =>
+    -- a history: parse these texts first, THEN check every registered name against its definition string
+    -- and every alias against its target
+    let names := registryDefs.map fun (n, d) => s!"{n} {hexOf d.toList}"
+    let als := (specAliases ++ registryAliases).map fun (a, t) => s!"{a} {t}"
+    s!"reghist {" ".intercalate hs} | {" ".intercalate names} | {" ".intercalate als}"
   | ["regalias", i] =>
     match specAliases[i.toNat?.getD 999]? with
     | some (a, tg) => s!"regalias {a} {tg}"
     | none => "skip no-such-alias"
+  | ["lregalias", i] =>
+    match specAliases[i.toNat?.getD 999]? with
+    | some (a, tg) => s!"lregalias {a} {tg}"
+    | none => "skip no-such-alias"
+  | ["lreg", name] =>
+    match registryLookup name with
+    | some d => s!"lreg {name} | {hexOf d.toList}"
+    | none => s!"lreg {name} | none"
   | ["histall", n] =>
     -- every datum of the (regenerated) table used by name, on ONE line: a replayable batch
     let texts := datumTable.filterMap fun (k, _) => (namedDatumTexts k false).map (·.1)
@@ -376,9 +390,15 @@ def judgeTwin (da db : Str) (r : Tok) : Option (String × String) × Tok :=
     (v, rest)
   | _ => (some ("DIFF", "malformed-impl-line"), [])
 
-def judgeLine (line : String) : String :=
+partial def judgeLine (line : String) : String :=
   let (lhs, rhs) := splitArrow (tokens line)
   match lhs with
+  | "lreg" :: rest | "lregalias" :: rest =>
+    -- the registry checks repeated after the whole run: a failure here depends on EARLIER lines, so it
+    -- is reported as a broken correspondence (DIFF), not as a failing input
+    let kind := if lhs.head? = some "lreg" then "reg" else "regalias"
+    let v := judgeLine (" ".intercalate (kind :: rest) ++ " => " ++ " ".intercalate rhs)
+    if v.startsWith "SPEC " then "DIFF late-" ++ (v.drop 5).toString else v
   | "pair" :: rest => judgePair rest rhs
   | "twinx" :: rest =>
     let desc := rest.takeWhile (· ≠ "|")
@@ -468,6 +488,24 @@ def judgeLine (line : String) : String :=
             | none => "OK reg"
         | _ => "DIFF reg malformed-impl-line"
     | _ => "DIFF reg malformed-impl-line"
+  | "reghist" :: _ =>
+    -- blocks `R <name> <st> <st> EQ a b NIL n GRID 9 …`
+    let rec go (fuel : Nat) (t : Tok) : Option String :=
+      match fuel, t with
+      | 0, _ => none
+      | _, [] => none
+      | fuel+1, "R" :: nm :: sa :: sb :: "EQ" :: e1 :: e2 :: "NIL" :: n1 :: "GRID" :: gn :: g =>
+        let n := gn.toNat?.getD 0
+        if sa ≠ "ok" || sb ≠ "ok" then some s!"{nm}:rejected-after-history({sa},{sb})"
+        else if e1 ≠ "t" || e2 ≠ "t" then some s!"{nm}:not-Equal-after-history({e1},{e2})"
+        else if n1 ≠ "t" then some s!"{nm}:NewTransform-not-nil-after-history({n1})"
+        else match gridAgree true 1.0 n g with
+          | some f => some s!"{nm}:{f}"
+          | none => go fuel (g.drop (14 * n))
+      | _, _ => some "malformed-impl-line"
+    match go 64 rhs with
+    | some f => s!"SPEC reghist registry-changed-by-an-earlier-Parse:{f}"
+    | none => "OK reghist"
   | ["regalias", a, tg] =>
     -- Spec: an alias denotes the same reference as its target (Equal both ways, nil transformer, same
     -- positions off the equator, same fields)
